@@ -115,6 +115,16 @@ def cases(tier, seed):
                                    {'src': 'i', 'tgt': 'e', 'W': Wb, 'edge': kind, 'edge_vals': v2}], f'two_{kind}_edges')
             add({'e': 2, 'i': 2}, [{'src': 'i', 'tgt': 'e', 'W': Wb, 'edge': kind, 'edge_vals': v2},
                                    {'src': 'e', 'tgt': 'i', 'W': W, 'edge': kind, 'edge_vals': v1}], f'two_{kind}_edges')
+    # two connections between the same pair of variables (their contributions add up), with and without delays
+    for d1, d2 in ((None, None), (3 * DT, None), (3 * DT, 5 * DT), (3 * DT, 3 * DT), (None, 2 * DT)):
+        for W2 in ([[0.5, 0.0], [0.0, -1.0]], [[1.0, 2.0], [0.0, 0.0]]):
+            c1 = {'src': 'e', 'tgt': 'i', 'W': [[0.0, 2.0], [1.0, 0.0]]}
+            c2 = {'src': 'e', 'tgt': 'i', 'W': W2}
+            if d1:
+                c1['delay'] = d1
+            if d2:
+                c2['delay'] = d2
+            add({'e': 2, 'i': 2}, [c1, c2], 'parallel_connections')
     # a scalar entry in PopulationTemplate.params next to per-unit lists (broadcast to all units)
     for W in list(mats(2, 3, full=False))[2:8]:
         for sc in (['e'], ['i'], ['e', 'i']):
